@@ -8,8 +8,11 @@ from harness.otl import Layout
 PID = "C10"
 LEVEL_TEXT = ("PARTIAL. Proved in Coq: in the variable kerning writer every source contributes its own UFO lookup value (UFO "
               "precedence) and a two-master variable scalar / outline vector evaluates, at a master's location, to that master's "
-              "value. Everything else in a variable build -- gvar/HVAR/CFF2 blending, multi-axis VariationModel, feature variation "
-              "tables -- is varLib/feaLib (environment), so the property is observed on the implementation: each compiled "
+              "value; and for ANY number of masters and axes the variation model (getDeltas + interpolateFromDeltas, Interp/VarModel.v) "
+              "reproduces every master at its location whenever the regions' scalars at the master locations are unit lower "
+              "triangular -- a hypothesis evaluated on the real VariationModel of every generated family, with the Gallina deltas "
+              "and interpolation compared exactly. Everything else in a variable build -- gvar/HVAR/CFF2 encoding, feature "
+              "variation tables -- is varLib/feaLib (environment), so the property is observed on the implementation: each compiled "
               "variable font (TrueType and CFF2, layout merged per master or built as variable features, one and two axes, "
               "several variable fonts per designspace) is instantiated with fontTools.varLib.instancer at every full master's "
               "location and compared with the interpolatable master (outlines and advances within one unit) and with the master "
@@ -113,6 +116,8 @@ def sparse_flatten_section(ctx):
 
 
 def explore(ctx):
+    from harness.props.c19 import varmodel_section
+    varmodel_section(ctx, "c10")
     sparse_flatten_section(ctx)
     import ufo2ft
     from fontTools.varLib import instancer
